@@ -763,6 +763,81 @@ fn shrink_probe(ctx: &mut Ctx) {
     }
 }
 
+/// C06 / C08 probe: degenerate planner parameters (zero, negative, NaN, infinite step / radius / build
+/// time). Whatever a planner makes of them, every call must return, and without panicking.
+fn parameter_probe(ctx: &mut Ctx) {
+    let vals: [(&str, f64); 4] = [("0", 0.0), ("-1", -1.0), ("nan", f64::NAN), ("inf", f64::INFINITY)];
+    let mut cases: Vec<(Kind, String, Params)> = Vec::new();
+    for kind in [Kind::Rrt, Kind::Star, Kind::Conn] {
+        for (n, v) in vals {
+            cases.push((kind, format!("max_distance={n}"), Params { maxd: v, bias: 0.1, radius: 2.0, build_ticks: 5, seed: Some(7) }));
+        }
+    }
+    for kind in [Kind::Star, Kind::Prm] {
+        for (n, v) in vals {
+            cases.push((kind, format!("radius={n}"), Params { maxd: 1.0, bias: 0.1, radius: v, build_ticks: 5, seed: Some(7) }));
+        }
+    }
+    cases.push((Kind::Prm, "build_time=nan".into(), Params { maxd: 1.0, bias: 0.1, radius: 2.0, build_ticks: u64::MAX, seed: Some(7) }));
+    cases.push((Kind::Prm, "build_time=-1".into(), Params { maxd: 1.0, bias: 0.1, radius: 2.0, build_ticks: u64::MAX - 1, seed: Some(7) }));
+    cases.push((Kind::Prm, "build_time=0".into(), Params { maxd: 1.0, bias: 0.1, radius: 2.0, build_ticks: 0, seed: Some(7) }));
+    for (kind, name, params) in cases {
+        ctx.run += 1;
+        let run = ctx.run;
+        let desc = json!({"space": "rv2-param", "world": "free", "planner": kind.name(), "parameter": name, "probe": "degenerate-parameter"});
+        if ctx.list {
+            println!("{}", json!({"run": run, "desc": desc}));
+            continue;
+        }
+        if let Some(o) = ctx.only {
+            if o != run {
+                continue;
+            }
+        }
+        if ctx.skip.contains(&run) {
+            continue;
+        }
+        if let Some(pf) = &ctx.progress {
+            std::fs::write(pf, format!("{}", run)).ok();
+        }
+        let space = RealVectorStateSpace::new(2, Some(vec![(0.0, 10.0), (0.0, 10.0)])).unwrap();
+        let problem = Problem {
+            starts: vec![rv(&[1.0, 1.0])],
+            goal: Rc::new(BallGoal { space: space.clone(), center: rv(&[9.0, 9.0]), r: 0.5 }) as Rc<dyn HGoal<RealVectorState>>,
+            checker: Rc::new(|_s: &RealVectorState| true),
+            pd_key: None,
+            vc_key: None,
+        };
+        let calls = if kind == Kind::Prm { vec![Call::Setup(0), Call::Construct, Call::Solve(5)] } else { vec![Call::Setup(0), Call::Solve(8)] };
+        let cfg = RunCfg { query_cap: 200_000, ..RunCfg::default() };
+        let recs = run_history(kind, &params, space, &[problem], &calls, &cfg);
+        let mut worst = "ok".to_string();
+        let mut site = String::new();
+        let mut queries = 0usize;
+        for r in &recs {
+            queries += r.raw.iter().filter(|e| matches!(e, Raw::IsValid(..))).count();
+            if let Outcome::Panic { msg, loc } = &r.outcome {
+                if worst == "ok" {
+                    worst = if msg.contains("QUERY_CAP") { "querycap".into() } else if msg.contains("SAMPLE_CAP") { "abort".into() } else { "panic".into() };
+                    site = loc.clone();
+                }
+            }
+        }
+        let shard = ctx.nruns % ctx.outs.len();
+        let evs = vec![
+            json!({"ev": "reset", "run": run, "planner": kind.name(), "mode": "real", "space": "rv2-param", "lvs": 1, "maxd": 0, "rad": 0, "tol": 0,
+                   "bias": "p", "seeded": true, "desc": desc}),
+            json!({"ev": "probe", "name": format!("{}:{}", kind.name(), name), "kind": worst, "queries": queries, "site": site}),
+        ];
+        for ev in &evs {
+            writeln!(ctx.outs[shard], "{}", ev).unwrap();
+            ctx.nevents += 1;
+        }
+        ctx.nruns += 1;
+        ctx.index.push(json!({"run": run, "desc": desc}));
+    }
+}
+
 fn main() {
     let args: Vec<String> = std::env::args().collect();
     let mut outp = String::from("/dev/null");
@@ -826,6 +901,7 @@ fn main() {
     resolution_zero_probe(&mut ctx);
     resetup_probe(&mut ctx);
     shrink_probe(&mut ctx);
+    parameter_probe(&mut ctx);
     for o in ctx.outs.iter_mut() {
         o.flush().unwrap();
     }
